@@ -114,6 +114,7 @@ CHECKS["C13"] = dict(
     rule="rapid draws a GraphSpec (all modes, nested, paradigm subsets) and a fault plan; non-trivial = the model executes an injected failure and (it sits at nesting depth >= 1, or >= 2 failing nodes execute in the failing step, or the failure travels on a stream); distinct = FNV-1a of case JSON",
     assumptions=GRAPH_ASSUME,
     parts=[rapid_part("rapid", "compose", "TestC13", 4000, 320000, qshards=4, replay_test="TestC13Replay"),
+           rapid_part("tools", "compose", "TestC13Tools", 1200, 30000, race=True, replay_test="TestC13ToolsReplay", replay_reps=3),
            rapid_part("forwarder", "schema", "TestC13Forwarder", 1500, 64000, shards=8, replay_test="TestC13ForwarderReplay", replay_reps=5)],
 )
 
@@ -188,7 +189,7 @@ CHECKS["C11"] = dict(
     rule="rapid draws a stateful GraphSpec, paradigm, release order, yield count and number of concurrent runs; non-trivial = >= 2 gated bodies observed waiting at once or a nested stateful graph; distinct = FNV-1a of case JSON",
     assumptions=GRAPH_ASSUME,
     parts=[rapid_part("rapid", "compose", "TestC11", 1500, 96000, race=True, replay_test="TestC11Replay", replay_reps=5),
-           rapid_part("resume", "compose", "TestC11Resume", 800, 48000, race=False, replay_test="TestC11ResumeReplay", replay_reps=10)],
+           rapid_part("resume", "compose", "TestC11Resume", 1500, 48000, qshards=4, race=False, replay_test="TestC11ResumeReplay", replay_reps=10)],
 )
 
 CHECKS["C17"] = dict(
